@@ -417,20 +417,23 @@ def Emu.flushAll (e : Emu) : Emu :=
       { c with chNrun := c.chNrun.flush, chPid := c.chPid.flush, chTid := c.chTid.flush,
                chThrun := c.chThrun.flush, chThact := c.chThact.flush } }
 
-/-- `model_ovni_finish` + the `end_lint` of every enabled model. -/
-def finish (e : Emu) : Except Err Unit := do
-  if e.threads.any (fun t => t.state ≠ .dead) then throw .finish
-  if e.lint then
-    for spec in allSpecs do
-      if e.enabled.contains spec.char then
-        match spec.lintChan with
-        | none => pure ()
-        | some i =>
-          if e.threads.any (fun t =>
-              match t.getChans spec.char with
-              | some cs => (cs.getD i {}).vals.length > 0
-              | none => false) then throw .finish
-  pure ()
+/-- `end_lint` of the enabled models: some thread ends with a non-empty
+    subsystem / function stack. -/
+def lintOpen (e : Emu) : Bool :=
+  allSpecs.any fun spec =>
+    e.enabled.contains spec.char &&
+    match spec.lintChan with
+    | none => false
+    | some i => e.threads.any fun t =>
+        match t.getChans spec.char with
+        | some cs => decide ((cs.getD i {}).vals.length > 0)
+        | none => false
+
+/-- `model_ovni_finish` (all threads dead) + the `end_lint` of every enabled model. -/
+def finish (e : Emu) : Except Err Unit :=
+  if e.threads.any (fun t => t.state ≠ .dead) then .error .finish
+  else if e.lint && lintOpen e then .error .finish
+  else .ok ()
 
 /-- Build the initial emulator from the hierarchy. -/
 def mkEmu (threads : List (Int × Int × Nat)) (cpus : List (Nat × Int × Bool)) (enabled : List Nat)
